@@ -62,7 +62,9 @@ def run_c03(prop="C03", tier="quick"):
 def run_c13(prop="C13", tier="quick"):
     """C13 view (format rule "at most prec+1 limbs"): R-EXTENT findings - a write into an mpf destination beyond the prec+1 limbs its block
     holds, or a size stored that exceeds them - inside the files the property is anchored in."""
-    return scope_to_anchors(run(prop, tier, rules=("R-EXTENT",)), prop)
+    # in-place calls are ordinary calls of these functions (the manual allows rop to be an operand), so the alias clauses are necessary
+    # conditions of the error bound as well: stale pointers, clobbered inputs and callee overlap contracts inside C13's files
+    return scope_to_anchors(run(prop, tier, rules=("R-EXTENT", "R-STALE", "R-CLOBBER", "R-OVERLAP")), prop)
 
 
 def run_c14(prop="C14", tier="quick"):
